@@ -19,6 +19,12 @@ def pick_const(rng, B):
     return rng.getrandbits(256)
 
 
+# storage keys computed from constants; each value has exactly one expression
+COMPUTED_KEYS = [(0xBFF0, 0x10, "ADD"), (2, 0x6001, "MUL"), (0xFFD, 0xD000, "SUB"), (1, 1, "ADD"),
+                 (0xff, 0xC0FF, "AND"), (0xC01, 4, "SHL"), (("push", 1 << 255, 32), 1, "OR")]
+COMPUTED_KEY_VALUES = {0xC000, 0xC002, 0xC003, 2, 0xff, 0xC010, (1 << 255) | 1}
+
+
 class Gen:
     def __init__(self, rng, B, nblocks=None, allow=None):
         self.rng = rng
@@ -119,7 +125,25 @@ class Gen:
                     d += 1
                     self.features.add("MLOAD")
             else:
+                if rng.random() < 0.2:
+                    # a key computed from constants: always by the same expression, and equal to no literal key
+                    expr = rng.choice(COMPUTED_KEYS)
+                    self.features.add("computed-key")
+                    if rng.random() < 0.6:
+                        d = self.ensure(d, 1)
+                        self.a.emit(*expr)
+                        self.a.emit("SSTORE")
+                        d -= 1
+                        self.features.add("SSTORE")
+                    else:
+                        self.a.emit(*expr)
+                        self.a.emit("SLOAD")
+                        d += 1
+                        self.features.add("SLOAD")
+                    continue
                 key = rng.choice([0, 1, 2, 3, 5, 1 << 64, 1 << 200, evm.M256]) if rng.random() < 0.8 else pick_const(rng, self.B)
+                if key in COMPUTED_KEY_VALUES:
+                    key = 7
                 self.keys.add(key)
                 if rng.random() < 0.6:
                     d = self.ensure(d, 1)
